@@ -83,12 +83,13 @@ func (t Ty) src() string {
 // E is an expression rendered in both variants.
 type E struct {
 	p, c string
-	prec int // Go precedence of the outermost operator; 6 = primary/unary
+	prec int  // Go precedence of the outermost operator; 6 = primary/unary
+	cst  bool // a Go constant expression (the type checker folds it; overflow / zero division / negative index are compile errors)
 }
 
-func atom(s string) E       { return E{s, s, 6} }
-func atom2(p, c string) E   { return E{p, c, 6} }
-func (e E) paren() E        { return E{"(" + e.p + ")", "(" + e.c + ")", 6} }
+func atom(s string) E     { return E{s, s, 6, false} }
+func atom2(p, c string) E { return E{p, c, 6, false} }
+func (e E) paren() E      { return E{"(" + e.p + ")", "(" + e.c + ")", 6, e.cst} }
 func (e E) atLeast(p int) E { // parenthesise if the outer operator binds weaker than p
 	if e.prec < p {
 		return e.paren()
@@ -129,27 +130,27 @@ type loopCtx struct {
 }
 
 type G struct {
-	r        *prng.R
-	feat     map[string]int
-	structs  []*StructDef
-	globals  []*Var
-	funcs    []*Func // callable helpers (already generated)
-	scopes   []*scope
-	loops    []loopCtx
-	cur      *Func
-	nvar     int
-	nlbl     int
-	budget   int // statements left for the current function
-	depth    int // nesting depth of blocks
-	inDefer  bool
-	hasDefer bool
-	noCalls  bool
-	safe     bool // no operation that can panic (global initialisers run in the batch's package init)
-	loopNest int
+	r         *prng.R
+	feat      map[string]int
+	structs   []*StructDef
+	globals   []*Var
+	funcs     []*Func // callable helpers (already generated)
+	scopes    []*scope
+	loops     []loopCtx
+	cur       *Func
+	nvar      int
+	nlbl      int
+	budget    int // statements left for the current function
+	depth     int // nesting depth of blocks
+	inDefer   bool
+	hasDefer  bool
+	noCalls   bool
+	safe      bool // no operation that can panic (global initialisers run in the batch's package init)
+	loopNest  int
 	selfCalls int
-	initFns  []string // bodies of init functions (plain/checked pairs rendered later)
-	inits    []E
-	decls    []E
+	initFns   []string // bodies of init functions (plain/checked pairs rendered later)
+	inits     []E
+	decls     []E
 }
 
 func (g *G) f(name string) { g.feat[name]++ }
@@ -166,7 +167,7 @@ func (g *G) pop() E {
 			fmt.Fprintf(&b, "_ = %s\n", v.Name)
 		}
 	}
-	return E{b.String(), b.String(), 0}
+	return E{b.String(), b.String(), 0, false}
 }
 
 func (g *G) declare(v *Var) { s := g.scopes[len(g.scopes)-1]; s.vars = append(s.vars, v) }
@@ -231,16 +232,19 @@ func (g *G) intLit() E {
 	if g.r.Chance(1, 5) {
 		if v == 1<<63-1 && g.r.Bool() {
 			g.f("lit:minint64")
-			return E{"-9223372036854775808", "-9223372036854775808", 6}
+			return E{"-9223372036854775808", "-9223372036854775808", 6, true}
 		}
 		s := fmt.Sprintf("-%d", v)
-		return E{s, s, 6}
+		return E{s, s, 6, true}
 	}
 	s := fmt.Sprintf("%d", v)
-	return atom(s)
+	return E{s, s, 6, true}
 }
 
-func (g *G) smallLit(lo, hi int) E { return atom(fmt.Sprintf("%d", g.r.Range(lo, hi))) }
+func (g *G) smallLit(lo, hi int) E {
+	s := fmt.Sprintf("%d", g.r.Range(lo, hi))
+	return E{s, s, 6, true}
+}
 
 func (g *G) use(v *Var) E { v.Used = true; return atom(v.Name) }
 
@@ -251,23 +255,11 @@ func bin(op string, prec int, a, b E, ck string) E {
 	c := a.c + " " + op + " " + b.c
 	if ck != "" {
 		c = ck + "(" + a.c + ", " + b.c + ")"
-		return E{p, c, prec}
 	}
-	return E{p, c, prec}
+	return E{p, c, prec, a.cst && b.cst}
 }
 
-func isLit(e E) bool {
-	s := strings.TrimPrefix(e.p, "-")
-	if s == "" {
-		return false
-	}
-	for _, ch := range s {
-		if ch < '0' || ch > '9' {
-			return false
-		}
-	}
-	return true
-}
+func isLit(e E) bool { return e.cst }
 
 // genExpr generates an expression of type t; d bounds the depth.
 func (g *G) genExpr(t Ty, d int) E {
@@ -318,9 +310,7 @@ func (g *G) genInt(d int) E {
 		}
 		if (o.op == "/" || o.op == "%") && isLit(b) {
 			// Go rejects division by the constant zero; a non-zero constant is fine
-			if strings.Trim(b.p, "-0") == "" {
-				b = g.smallLit(1, 9)
-			}
+			b = g.smallLit(1, 9)
 		}
 		g.f("expr:arith" + o.op)
 		e := bin(o.op, o.prec, a, b, o.ck)
@@ -330,29 +320,36 @@ func (g *G) genInt(d int) E {
 		return e
 	case 1: // unary minus / complement
 		a := g.genInt(d - 1)
+		if a.cst {
+			a = g.smallLit(0, 200) // keep constant expressions inside int
+		}
 		if g.r.Chance(1, 4) {
 			g.f("expr:invert")
 			a = a.atLeast(6)
 			if strings.HasPrefix(a.p, "^") || strings.HasPrefix(a.p, "-") {
 				a = a.paren()
 			}
-			return E{"^" + a.p, "^" + a.c, 6}
+			return E{"^" + a.p, "^" + a.c, 6, a.cst}
 		}
 		g.f("expr:neg")
 		a = a.atLeast(6)
 		if strings.HasPrefix(a.p, "-") {
 			a = a.paren()
 		}
-		return E{"-" + a.p, "ck_neg(" + a.c + ")", 6}
+		return E{"-" + a.p, "ck_neg(" + a.c + ")", 6, a.cst}
 	case 2: // shifts by a small constant
-		a := g.genInt(d - 1).atLeast(5)
+		a := g.genInt(d - 1)
+		if a.cst {
+			a = g.smallLit(0, 200)
+		}
+		a = a.atLeast(5)
 		k := g.r.Intn(5)
 		if g.r.Bool() {
 			g.f("expr:shl")
-			return E{fmt.Sprintf("%s << %d", a.p, k), fmt.Sprintf("ck_shl(%s, %d)", a.c, k), 5}
+			return E{fmt.Sprintf("%s << %d", a.p, k), fmt.Sprintf("ck_shl(%s, %d)", a.c, k), 5, a.cst}
 		}
 		g.f("expr:shr")
-		return E{fmt.Sprintf("%s >> %d", a.p, k), fmt.Sprintf("%s >> %d", a.c, k), 5}
+		return E{fmt.Sprintf("%s >> %d", a.p, k), fmt.Sprintf("%s >> %d", a.c, k), 5, a.cst}
 	case 3: // len
 		ks := []Kind{KStr, KBytes, KInts, KMapII, KMapSI}
 		k := ks[g.r.Intn(len(ks))]
@@ -390,9 +387,9 @@ func (g *G) genInt(d int) E {
 		g.f("expr:minmax")
 		if g.r.Chance(1, 3) {
 			c3 := g.genInt(d - 1)
-			return E{fn + "(" + a.p + ", " + b.p + ", " + c3.p + ")", fn + "(" + a.c + ", " + b.c + ", " + c3.c + ")", 6}
+			return E{fn + "(" + a.p + ", " + b.p + ", " + c3.p + ")", fn + "(" + a.c + ", " + b.c + ", " + c3.c + ")", 6, a.cst && b.cst && c3.cst}
 		}
-		return E{fn + "(" + a.p + ", " + b.p + ")", fn + "(" + a.c + ", " + b.c + ")", 6}
+		return E{fn + "(" + a.p + ", " + b.p + ")", fn + "(" + a.c + ", " + b.c + ")", 6, a.cst && b.cst}
 	case 8: // map lookup of a key that is known to be present is rare; use the comma-ok helper instead
 		return g.genInt(d - 1)
 	case 9: // int(byte) conversions
@@ -425,6 +422,9 @@ func (g *G) genIndex(d int) E {
 		// possibly out of range: both sides must fail
 		g.f("expr:index-maybe-oob")
 		idx = g.genInt(d - 1)
+		if idx.cst {
+			idx = g.smallLit(0, 6)
+		}
 	default:
 		idx = g.smallLit(0, 3)
 	}
@@ -466,7 +466,7 @@ func (g *G) genBool(d int) E {
 	case 3:
 		g.f("expr:!")
 		a := g.genBool(d - 1).atLeast(6)
-		return E{"!" + a.p, "!" + a.c, 6}
+		return E{"!" + a.p, "!" + a.c, 6, false}
 	case 4:
 		op := "=="
 		if g.r.Bool() {
@@ -564,7 +564,7 @@ func (g *G) genBytes(d int) E {
 	if g.r.Chance(1, 3) {
 		g.f("expr:[]byte(str)")
 		s := g.genStr(d - 1)
-		return E{"[]byte(" + s.p + ")", "[]byte(" + s.c + ")", 6}
+		return E{"[]byte(" + s.p + ")", "[]byte(" + s.c + ")", 6, false}
 	}
 	return g.bytesLit(d)
 }
@@ -720,10 +720,14 @@ func (g *G) callOf(f *Func, d int) (E, bool) {
 
 type sb struct{ p, c strings.Builder }
 
-func (s *sb) add(e E)               { s.p.WriteString(e.p); s.c.WriteString(e.c) }
-func (s *sb) both(f string, a ...any) { t := fmt.Sprintf(f, a...); s.p.WriteString(t); s.c.WriteString(t) }
-func (s *sb) pc(p, c string)        { s.p.WriteString(p); s.c.WriteString(c) }
-func (s *sb) E() E                  { return E{s.p.String(), s.c.String(), 0} }
+func (s *sb) add(e E) { s.p.WriteString(e.p); s.c.WriteString(e.c) }
+func (s *sb) both(f string, a ...any) {
+	t := fmt.Sprintf(f, a...)
+	s.p.WriteString(t)
+	s.c.WriteString(t)
+}
+func (s *sb) pc(p, c string) { s.p.WriteString(p); s.c.WriteString(c) }
+func (s *sb) E() E           { return E{s.p.String(), s.c.String(), 0, false} }
 
 func topE(e E) E { // an expression in statement position does not need its outer parentheses
 	return e
@@ -877,7 +881,9 @@ func (g *G) genStmt() E {
 	case 15: // struct field update
 		if v := g.pickVar(KPtr, false); v != nil {
 			f := v.Ty.S.Fields[g.r.Intn(len(v.Ty.S.Fields))]
-			v.Used = true
+			if f.Ty.K == KInt || f.Ty.K == KBool {
+				v.Used = true
+			}
 			switch f.Ty.K {
 			case KInt:
 				e := g.genInt(2)
@@ -1010,7 +1016,8 @@ func (g *G) genDefine(t Ty) E {
 		}
 	}
 	g.f("stmt:define")
-	if g.r.Chance(1, 8) && t.K != KPtr {
+	// `var x T = … x …` that shadows an outer x is the known finding var-decl-shadow-self: shadows use `:=`
+	if g.r.Chance(1, 8) && t.K != KPtr && name[0] == 'v' {
 		s.pc(fmt.Sprintf("var %s %s = %s\n", name, t.src(), e.p), fmt.Sprintf("var %s %s = %s\n", name, t.src(), e.c))
 	} else {
 		s.pc(fmt.Sprintf("%s := %s\n", name, e.p), fmt.Sprintf("%s := %s\n", name, e.c))
@@ -1224,7 +1231,7 @@ func (g *G) genSwitch() E {
 	var head E
 	if tagless {
 		g.f("stmt:switch-tagless")
-		head = E{"switch {\n", "switch {\n", 0}
+		head = E{"switch {\n", "switch {\n", 0, false}
 	} else {
 		t := g.genInt(2)
 		if isLit(t) {
@@ -1235,11 +1242,11 @@ func (g *G) genSwitch() E {
 		if g.r.Chance(1, 6) {
 			n := g.fresh("t")
 			g.f("stmt:switch-init")
-			head = E{fmt.Sprintf("switch %s := %s; %s {\n", n, t.p, n), fmt.Sprintf("switch %s := %s; %s {\n", n, t.c, n), 0}
+			head = E{fmt.Sprintf("switch %s := %s; %s {\n", n, t.p, n), fmt.Sprintf("switch %s := %s; %s {\n", n, t.c, n), 0, false}
 			g.declare(&Var{Name: n, Ty: tInt, ReadOnly: true, Used: true})
 		} else {
 			g.f("stmt:switch-tag")
-			head = E{"switch " + t.p + " {\n", "switch " + t.c + " {\n", 0}
+			head = E{"switch " + t.p + " {\n", "switch " + t.c + " {\n", 0, false}
 		}
 	}
 	g.loops = append(g.loops, loopCtx{label: lbl, usedLbl: used, isSwitch: true})
